@@ -1,7 +1,7 @@
 //! C19 - zeroize and const-default reach every one of the N elements (run-time half; const half is gen/c19.py).
 
 use const_default::ConstDefault;
-use generic_array::typenum::U3;
+use generic_array::typenum::{U2, U3};
 use generic_array::{ArrayLength, GenericArray};
 use harness::engine::{self, Acc, Args, Report};
 use harness::len_match;
@@ -49,6 +49,27 @@ impl Default for Sentinel {
     }
 }
 
+/// two machine words wide, word aligned, no drop glue; zero, default and prior contents distinguishable per field
+#[derive(Clone, Copy, Debug, PartialEq)]
+pub struct Wide {
+    lo: u64,
+    hi: u64,
+}
+impl ConstDefault for Wide {
+    const DEFAULT: Wide = Wide { lo: 0x1111_2222_3333_4444, hi: 0x5555_6666_7777_8888 };
+}
+impl Default for Wide {
+    fn default() -> Wide {
+        Wide::DEFAULT
+    }
+}
+impl Zeroize for Wide {
+    fn zeroize(&mut self) {
+        self.lo.zeroize();
+        self.hi.zeroize();
+    }
+}
+
 #[derive(Clone, Copy, Debug, Serialize, Deserialize, PartialEq, Eq, Hash)]
 pub enum Kind {
     U8,
@@ -58,6 +79,14 @@ pub enum Kind {
     P,
     Sentinel,
     NonZero,
+    /// 16-byte struct of two u64
+    Wide,
+    /// nested GenericArray<u64, U2>
+    NestedWide,
+    /// [u64; 3], 24 bytes
+    Arr24,
+    U128,
+    U16,
 }
 
 #[derive(Clone, Copy, Debug, Serialize, Deserialize, PartialEq, Eq, Hash)]
@@ -147,6 +176,11 @@ where
     GenericArray<GenericArray<u8, U3>, N>: ConstDefault,
     GenericArray<P, N>: ConstDefault,
     GenericArray<Sentinel, N>: ConstDefault,
+    GenericArray<Wide, N>: ConstDefault,
+    GenericArray<GenericArray<u64, U2>, N>: ConstDefault,
+    GenericArray<[u64; 3], N>: ConstDefault,
+    GenericArray<u128, N>: ConstDefault,
+    GenericArray<u16, N>: ConstDefault,
 {
     let s = case.seed;
     match (case.op, case.kind) {
@@ -164,6 +198,16 @@ where
         (Op::ConstDefault, Kind::P) => const_default_case::<P, N>(Some(P::default())),
         (Op::ConstDefault, Kind::Sentinel) => const_default_case::<Sentinel, N>(Some(Sentinel::default())),
         (Op::ConstDefault, Kind::NonZero) => Ok(()),
+        (Op::Zeroize, Kind::Wide) => zeroize_case::<Wide, N>(|x| Wide { lo: x | 1, hi: x.rotate_left(17) | 1 }, Wide { lo: 0, hi: 0 }, s),
+        (Op::Zeroize, Kind::NestedWide) => zeroize_case::<GenericArray<u64, U2>, N>(|x| GenericArray::from_array([x | 1, x.rotate_left(17) | 1]), GenericArray::from_array([0; 2]), s),
+        (Op::Zeroize, Kind::Arr24) => zeroize_case::<[u64; 3], N>(|x| [x | 1, x.rotate_left(17) | 1, x.rotate_left(31) | 1], [0; 3], s),
+        (Op::Zeroize, Kind::U128) => zeroize_case::<u128, N>(|x| ((x as u128) << 64) | (x.rotate_left(9) as u128) | 1 | (1 << 100), 0, s),
+        (Op::Zeroize, Kind::U16) => zeroize_case::<u16, N>(|x| (x >> 8) as u16 | 0x101, 0, s),
+        (Op::ConstDefault, Kind::Wide) => const_default_case::<Wide, N>(Some(Wide::default())),
+        (Op::ConstDefault, Kind::NestedWide) => const_default_case::<GenericArray<u64, U2>, N>(Some(Default::default())),
+        (Op::ConstDefault, Kind::Arr24) => const_default_case::<[u64; 3], N>(Some([0; 3])),
+        (Op::ConstDefault, Kind::U128) => const_default_case::<u128, N>(Some(0)),
+        (Op::ConstDefault, Kind::U16) => const_default_case::<u16, N>(Some(0)),
     }
 }
 
@@ -192,7 +236,7 @@ pub fn main() {
     let mut g = vec![];
     let mut x = args.seed.wrapping_mul(0x9E37_79B9_7F4A_7C15) | 1;
     for &n in LENS {
-        for kind in [Kind::U8, Kind::U64, Kind::Arr3, Kind::Nested, Kind::P, Kind::Sentinel, Kind::NonZero] {
+        for kind in [Kind::U8, Kind::U64, Kind::Arr3, Kind::Nested, Kind::P, Kind::Sentinel, Kind::NonZero, Kind::Wide, Kind::NestedWide, Kind::Arr24, Kind::U128, Kind::U16] {
             for _ in 0..(if n > 1024 { 2 } else { draws }) {
                 x ^= x << 13;
                 x ^= x >> 7;
@@ -218,7 +262,7 @@ pub fn main() {
         Report {
             prop: PROP,
             level: "exploration",
-            rule: "run-time half: case = (every N in 0..=64 and 100,127,128,255,256,1000,1023,1024,2047,2048,3000,3500,4095,4096,4097,5000,6000,8192,10000,12000 - each a distinct storage shape -, element kind u8 / u64 / [u8;3] / nested GenericArray<u8,U3> / P{a:u8,b:u16} with DEFAULT {0xAB,0xCDEF} / a type whose zeroized value is a non-zero sentinel / NonZeroU32 (zeroizes to 1), operation, seeded non-zero prior contents). \
+            rule: "run-time half: case = (every N in 0..=64 and 100,127,128,255,256,1000,1023,1024,2047,2048,3000,3500,4095,4096,4097,5000,6000,8192,10000,12000 - each a distinct storage shape -, element kind u8 / u64 / [u8;3] / nested GenericArray<u8,U3> / P{a:u8,b:u16} with DEFAULT {0xAB,0xCDEF} / a type whose zeroized value is a non-zero sentinel / NonZeroU32 (zeroizes to 1) / a 16-byte struct of two u64 with a per-field distinguishable DEFAULT / nested GenericArray<u64,U2> / [u64;3] / u128 / u16, operation, seeded non-zero prior contents). \
                    Oracle: after zeroize() every one of the N elements equals the element type's zeroized value, read through iteration, indexing and by-value iteration; const_default() and DEFAULT have length N, every element equals T::DEFAULT, and equal Default::default() where both exist. \
                    non-trivial = N >= 2 and an element kind other than u8; distinct = distinct case tuples",
             exhaustive: false,
